@@ -170,18 +170,31 @@ func (h *half) write(p []byte) (int, error) {
 	if h.opts.Rendezvous {
 		// wait until the peer has consumed everything we queued
 		target := h.nwritten
+		// like net.Pipe: what the peer has not taken when the write gives up is never delivered
+		giveUp := func(err error) (int, error) {
+			left := target - h.nread
+			if left > int64(len(h.buf)) {
+				left = int64(len(h.buf))
+			}
+			h.buf = h.buf[:int64(len(h.buf))-left]
+			h.nwritten -= left
+			if k := len(h.writes) - 1; k >= 0 && left <= int64(len(h.writes[k])) {
+				h.writes[k] = h.writes[k][:int64(len(h.writes[k]))-left]
+			}
+			return int(int64(n) - left), err
+		}
 		for h.nread < target {
 			if h.abort {
-				return int(int64(n) - (target - h.nread)), h.writeErr
+				return giveUp(h.writeErr)
 			}
 			if h.rclosed || h.wclosed {
 				return int(int64(n) - (target - h.nread)), io.ErrClosedPipe
 			}
 			if !h.wdeadline.IsZero() && !time.Now().Before(h.wdeadline) {
-				return int(int64(n) - (target - h.nread)), errTimeout
+				return giveUp(errTimeout)
 			}
 			if !h.wait(h.wdeadline) {
-				return int(int64(n) - (target - h.nread)), errTimeout
+				return giveUp(errTimeout)
 			}
 		}
 	}
